@@ -10,7 +10,7 @@ VERIF = os.path.dirname(os.path.dirname(os.path.abspath(__file__)))
 REPO = os.environ.get("VERIF_REPO", "/repo")
 EXCLUDES = ["target", ".git", "fuzz", "python", ".github", "scripts"]
 
-LIB_PRELUDE = "#![cfg_attr(kani, feature(allocator_api, pattern))]\n"
+LIB_PRELUDE = "#![cfg_attr(kani, feature(allocator_api, pattern))]\n#![cfg_attr(kani, recursion_limit = \"512\")]\n"
 MOD_GRAFT = "\n#[cfg(kani)]\nmod verif_kani;\n"
 
 
